@@ -347,7 +347,7 @@ Section WithRec.
         if o_optional o then Ok (zero_val t) else
         match deref t with
         | Slice _ => Err E_mismatch            (* emptyMap into a slice *)
-        | Map _ => fill_map t (JObj [])        (* emptyMap: an absent required map becomes an empty map *)
+        | Map _ => Err E_required              (* c271df3: an absent required map is reported as unset *)
         | Struct fs =>
             if ty_required (Struct fs) then Err E_required
             else bind (rec_struct fs []) (fun v => Ok (wrap_ptr t v))
@@ -554,3 +554,51 @@ Fixpoint camel_keys (d : jv) : jv :=
   | JArr l => JArr (map camel_keys l)
   | _ => d
   end.
+
+(* ------------------------------------------------------------------ httpc.buildRequest / httpx.Parse, transport parts
+   api/httpc/requests.go:104-200 (fillPath, buildFormQuery, fillHeader) and api/httpx/requests.go:27-105 with
+   api/router (path variables), GetFormValues, ParseHeaders -- as transformers of (name, text) lists.
+   The wire codecs are parameters: url escaping of a path segment / query value, MIME canonical header names, the
+   transport's trimming of header values.  A URL path is the list of its segments (no '/' inside a value). *)
+Section Transport.
+  Variable esc unesc : string -> string.
+  Variable canon : string -> string.
+  Variable trim : string -> string.
+
+  Definition smap := list (string * string).
+  Inductive seg := Lit (s : string) | Var (name : string).
+
+  (* fillPath: every :name segment becomes its value; a missing or empty value is an error *)
+  Fixpoint fill_path (p : list seg) (m : smap) : option (list string) :=
+    match p with
+    | [] => Some []
+    | Lit s :: r => option_map (cons s) (fill_path r m)
+    | Var n :: r =>
+        match olookup n m with
+        | Some v => if String.eqb v "" then None else option_map (cons (esc v)) (fill_path r m)
+        | None => None
+        end
+    end.
+
+  (* the router matches segment by segment and binds the (unescaped) variables: pathvar.Vars *)
+  Fixpoint match_path (p : list seg) (w : list string) : option smap :=
+    match p, w with
+    | [], [] => Some []
+    | Lit s :: r, x :: w' => if String.eqb s x then match_path r w' else None
+    | Var n :: r, x :: w' => option_map (cons (n, unesc x)) (match_path r w')
+    | _, _ => None
+    end.
+
+  Fixpoint path_vars (p : list seg) : list string :=
+    match p with [] => [] | Lit _ :: r => path_vars r | Var n :: r => n :: path_vars r end.
+
+  (* buildFormQuery (url.Values.Encode) and GetFormValues (empty values are dropped) *)
+  Definition build_query (m : smap) : smap := map (fun kv => (fst kv, esc (snd kv))) m.
+  Definition parse_query (q : smap) : smap :=
+    filter (fun kv => negb (String.eqb (snd kv) "")) (map (fun kv => (fst kv, unesc (snd kv))) q).
+
+  (* fillHeader (Header.Add canonicalises the name), the transport, ParseHeaders + canonical key lookup *)
+  Definition build_header (m : smap) : smap := map (fun kv => (canon (fst kv), snd kv)) m.
+  Definition transport_header (h : smap) : smap := map (fun kv => (fst kv, trim (snd kv))) h.
+  Definition header_get (k : string) (h : smap) : option string := olookup (canon k) h.
+End Transport.
